@@ -62,3 +62,7 @@ func gvcFresh(x any) bool { panic("ghost") }
 // first element in it (ghost observers; executable approximations are not needed).
 func gvcRegion[T any](s []T) int { panic("ghost") }
 func gvcOff[T any](s []T) int    { panic("ghost") }
+
+// gvcUnchangedOutside(b): every byte of b's backing array outside b[0:len(b)] has the
+// value it had in the pre-state (old). Ghost.
+func gvcUnchangedOutside(b []byte) bool { panic("ghost") }
